@@ -294,9 +294,12 @@ def run(ctx):
                     continue
                 rep.functions.add(name)
                 check(ctx, mod, fn, rule, name + tag, spec, real)
+                if name.endswith('_sgndet'):
+                    sign_not_from_product(ctx, mod, fn, name + tag)
     k = len(configs)
     rep.floor('F', 3 * k)
     rep.floor('P1', 3 * k)
+    rep.floor('P2', 2 * k)
     rep.floor('S', 12 * k)
     rep.floor('D', 25 * k)
 
@@ -346,6 +349,27 @@ def guard_order(tree):
                 walk(t[3])
     walk(tree)
     return out
+
+
+def sign_not_from_product(ctx, mod, fn, sym):
+    """P2: the sign of the determinant is the parity of the negative pivots (times the permutation sign), read off the pivots one
+    by one.  A sign taken from the floating-point product - a call of the determinant routine, or any multiplication of reals in
+    the function - is 0 when the product underflows although no pivot vanishes (and the logarithm of |det| stays finite)."""
+    rep = ctx.rep
+    import effects
+    bad = []
+    for i in fn.instrs():
+        if i.op in ('fmul', 'fdiv'):
+            bad.append((i, 'a floating-point %s' % ('product' if i.op == 'fmul' else 'quotient')))
+        elif i.op == 'call':
+            cn = effects.callee_name(i) or ''
+            if cn.endswith('_det') or cn.endswith('_lndet') or cn in ('exp', 'expf', 'a_real_exp'):
+                bad.append((i, 'a call of %s' % cn))
+    if bad:
+        rep.bad('P2', sym, 'the sign is derived from %s: it underflows to 0 for a regular, badly scaled matrix whose pivots are all far from zero' % bad[0][1],
+                loc=fn.loc(bad[0][0]), key='%s: sign from the product' % fn.name)
+    else:
+        rep.ok('P2', sym, 'no product of reals and no determinant call: the sign is read off the pivots', loc=fn.loc(fn.entry.instrs[0]))
 
 
 def check(ctx, mod, fn, rule, sym, spec, real):
